@@ -38,7 +38,7 @@ Qed.
 Theorem dedupe_tool_real_spec fields d input rs :
   nonul fields -> parse_key_spec fields = Some rs ->
   dedupe_tool_real fields d input =
-    ToolOk (unrecords newline (first_occ (list Z) (key_fn rs d) (records newline true input))).
+    ToolOk (unrecords newline (first_occ (list Z) (key_fn rs d) (tool_lines input))).
 Proof.
   intros Hn Hp. destruct (parse_key_spec_proof fields rs Hn Hp) as (rs0 & _ & _ & C & _).
   unfold dedupe_tool_real. rewrite Hp. rewrite (all_keys_total rs d C).
